@@ -84,7 +84,10 @@ mod verif_proofs {
             }
         }
         let common = self_mask & other_mask != 0;
-        vk_cover!(!common || matches!((&i, &r), (Some(_), Some(rb)) if *rb != b), "remainder was cut");
+        // a remainder can only be cut when self constrains no axis that other leaves free (otherwise the code
+        // keeps the whole of other as remainder: "extruding" from the start)
+        let can_cut = common && (self_mask & !other_mask) == 0;
+        vk_cover!(!can_cut || matches!((&i, &r), (Some(_), Some(rb)) if *rb != b), "remainder was cut");
         vk_cover!(!common || i.is_none(), "no intersection");
         vk_cover!(in_b, "probe inside other");
         std::mem::forget(a); std::mem::forget(b); std::mem::forget(i); std::mem::forget(r);
